@@ -34,13 +34,13 @@ theorem least_eq' (p : Nat → Bool) (n k : Nat) (hk : k ≤ n) (hlt : ∀ x, x 
 
 /-! ### `colourAt` -/
 
-theorem colourAt_head_gt (l : List Run) (p : Colour) (x : Nat) (h : ∀ r, l.head? = some r → x < r.1) :
+theorem pk_colourAt_head_gt (l : List Run) (p : Colour) (x : Nat) (h : ∀ r, l.head? = some r → x < r.1) :
     colourAt l p x = p := by
   have := colourAt_append_gt [] l p x h
   simpa [colourAt] using this
 
 /-- the lookup result is the initial colour or the colour of some run -/
-theorem colourAt_mem (l : List Run) (p : Colour) (x : Nat) :
+theorem pk_colourAt_mem (l : List Run) (p : Colour) (x : Nat) :
     colourAt l p x = p ∨ ∃ r ∈ l, r.2 = colourAt l p x := by
   induction l generalizing p with
   | nil => left; rfl
@@ -54,7 +54,7 @@ theorem colourAt_mem (l : List Run) (p : Colour) (x : Nat) :
       · exact ⟨(o, c), by simp, h.symm⟩
       · exact ⟨r, by simp [hr], h⟩
 
-theorem colourAt_append_congr (a l l' : List Run) (x : Nat) (h : ∀ p, colourAt l p x = colourAt l' p x) (p : Colour) :
+theorem pk_colourAt_append_congr (a l l' : List Run) (x : Nat) (h : ∀ p, colourAt l p x = colourAt l' p x) (p : Colour) :
     colourAt (a ++ l) p x = colourAt (a ++ l') p x := by
   induction a generalizing p with
   | nil => exact h p
@@ -65,35 +65,35 @@ theorem colourAt_append_congr (a l l' : List Run) (x : Nat) (h : ∀ p, colourAt
     · rfl
     · exact ih c
 
-theorem Sorted.append_left {a b : List Run} (h : Sorted (a ++ b)) : Sorted a := by
+theorem Sorted.pk_append_left {a b : List Run} (h : Sorted (a ++ b)) : Sorted a := by
   unfold Sorted at *; exact (List.pairwise_append.1 h).1
 
-theorem Sorted.append_right {a b : List Run} (h : Sorted (a ++ b)) : Sorted b := by
+theorem Sorted.pk_append_right {a b : List Run} (h : Sorted (a ++ b)) : Sorted b := by
   unfold Sorted at *; exact (List.pairwise_append.1 h).2.1
 
-theorem Sorted.lt {a b : List Run} (h : Sorted (a ++ b)) : ∀ r ∈ a, ∀ r' ∈ b, r.1 < r'.1 := by
+theorem Sorted.pk_lt {a b : List Run} (h : Sorted (a ++ b)) : ∀ r ∈ a, ∀ r' ∈ b, r.1 < r'.1 := by
   unfold Sorted at *; exact (List.pairwise_append.1 h).2.2
 
-theorem Sorted.head_lt {r : Run} {b : List Run} (h : Sorted (r :: b)) : ∀ r' ∈ b, r.1 < r'.1 := by
+theorem Sorted.pk_head_lt {r : Run} {b : List Run} (h : Sorted (r :: b)) : ∀ r' ∈ b, r.1 < r'.1 := by
   unfold Sorted at *; exact (List.pairwise_cons.1 h).1
 
-theorem Sorted.tail {r : Run} {b : List Run} (h : Sorted (r :: b)) : Sorted b := by
+theorem Sorted.pk_tail {r : Run} {b : List Run} (h : Sorted (r :: b)) : Sorted b := by
   unfold Sorted at *; exact (List.pairwise_cons.1 h).2
 
 /-- the run that covers `x` -/
-theorem colourAt_run (pre post : List Run) (o : Nat) (c p : Colour) (x : Nat)
+theorem pk_colourAt_run (pre post : List Run) (o : Nat) (c p : Colour) (x : Nat)
     (hpre : ∀ r ∈ pre, r.1 ≤ x) (ho : o ≤ x) (hpost : ∀ r, post.head? = some r → x < r.1) :
     colourAt (pre ++ (o, c) :: post) p x = c := by
   rw [colourAt_append_le _ _ _ _ hpre]
   have : ¬ x < o := by omega
   simp only [colourAt, this, if_false]
-  exact colourAt_head_gt _ _ _ hpost
+  exact pk_colourAt_head_gt _ _ _ hpost
 
 /-- recolouring a run only matters for the offsets it covers -/
-theorem colourAt_recolour (pre post : List Run) (o : Nat) (c c' p : Colour) (x : Nat)
+theorem pk_colourAt_recolour (pre post : List Run) (o : Nat) (c c' p : Colour) (x : Nat)
     (h : x < o ∨ ∃ r, post.head? = some r ∧ r.1 ≤ x) :
     colourAt (pre ++ (o, c) :: post) p x = colourAt (pre ++ (o, c') :: post) p x := by
-  apply colourAt_append_congr
+  apply pk_colourAt_append_congr
   intro p
   simp only [colourAt]
   split
@@ -110,16 +110,16 @@ theorem colourAt_recolour (pre post : List Run) (o : Nat) (c c' p : Colour) (x :
         simp [colourAt, this]
 
 /-- splitting a run at `e` and recolouring its first part -/
-theorem colourAt_split (pre post : List Run) (o e : Nat) (c c' p : Colour) (x : Nat)
+theorem pk_colourAt_split (pre post : List Run) (o e : Nat) (c c' p : Colour) (x : Nat)
     (hpre : ∀ r ∈ pre, r.1 < o) (_hoe : o < e) :
     colourAt (pre ++ (o, c') :: (e, c) :: post) p x =
       if o ≤ x ∧ x < e then c' else colourAt (pre ++ (o, c) :: post) p x := by
   split
   · next h =>
-    exact colourAt_run pre _ o c' p x (fun r hr => by have := hpre r hr; omega) h.1
+    exact pk_colourAt_run pre _ o c' p x (fun r hr => by have := hpre r hr; omega) h.1
       (fun r hr => by simp at hr; subst hr; exact h.2)
   · next h =>
-    apply colourAt_append_congr
+    apply pk_colourAt_append_congr
     intro p
     simp only [colourAt]
     by_cases h1 : x < o
@@ -128,7 +128,7 @@ theorem colourAt_split (pre post : List Run) (o e : Nat) (c c' p : Colour) (x : 
       simp [h1, this]
 
 /-- runs of the colour of their predecessor are redundant -/
-theorem colourAt_same (f z : List Run) (c : Colour) (x : Nat) (hs : Sorted (f ++ z)) (hf : ∀ r ∈ f, r.2 = c) :
+theorem pk_colourAt_same (f z : List Run) (c : Colour) (x : Nat) (hs : Sorted (f ++ z)) (hf : ∀ r ∈ f, r.2 = c) :
     colourAt (f ++ z) c x = colourAt z c x := by
   induction f with
   | nil => rfl
@@ -140,49 +140,49 @@ theorem colourAt_same (f z : List Run) (c : Colour) (x : Nat) (hs : Sorted (f ++
     split
     · next hx =>
       symm
-      apply colourAt_head_gt
+      apply pk_colourAt_head_gt
       intro r hr
       have : r ∈ f ++ z := by
         cases z with
         | nil => simp at hr
         | cons r' z => simp at hr; subst hr; simp
-      have := Sorted.head_lt hs r this
+      have := Sorted.pk_head_lt hs r this
       simp at this; omega
-    · exact ih (Sorted.tail hs) (fun r hr => hf r (by simp [hr]))
+    · exact ih (Sorted.pk_tail hs) (fun r hr => hf r (by simp [hr]))
 
-theorem colourAt_drop_same (a f z : List Run) (g : Run) (p : Colour) (x : Nat) (hs : Sorted (a ++ g :: (f ++ z)))
+theorem pk_colourAt_drop_same (a f z : List Run) (g : Run) (p : Colour) (x : Nat) (hs : Sorted (a ++ g :: (f ++ z)))
     (hf : ∀ r ∈ f, r.2 = g.2) :
     colourAt (a ++ g :: z) p x = colourAt (a ++ g :: (f ++ z)) p x := by
-  apply colourAt_append_congr
+  apply pk_colourAt_append_congr
   intro p
   obtain ⟨o, c⟩ := g
   simp only [colourAt]
   split
   · rfl
-  · exact (colourAt_same f z c x (Sorted.tail (Sorted.append_right hs)) hf).symm
+  · exact (pk_colourAt_same f z c x (Sorted.pk_tail (Sorted.pk_append_right hs)) hf).symm
 
 /-! ### the scans of `pick` -/
 
 /-- a run of this colour may be offered -/
-def sendable (flow : Nat) (c : Colour) : Prop := c = .lost ∨ (c = .pending ∧ flow ≠ 0)
+def pk_sendable (flow : Nat) (c : Colour) : Prop := c = .lost ∨ (c = .pending ∧ flow ≠ 0)
 
 theorem findPick_spec (flow win : Nat) (runs : List Run) (i : Nat) (sg : Sig) (hwin : ∀ r ∈ runs, r.1 < win) :
     match (findPick flow win runs i sg).1 with
-    | none => ∀ r ∈ runs, ¬ sendable flow r.2
+    | none => ∀ r ∈ runs, ¬ pk_sendable flow r.2
     | some (idx, (o, c)) => ∃ pre post, runs = pre ++ (o, c) :: post ∧ idx = i + pre.length ∧
-        (∀ r ∈ pre, ¬ sendable flow r.2) ∧ sendable flow c := by
+        (∀ r ∈ pre, ¬ pk_sendable flow r.2) ∧ pk_sendable flow c := by
   induction runs generalizing i sg with
   | nil => simp [findPick]
   | cons r rest ih =>
     obtain ⟨o, c⟩ := r
     have ho : ¬ o ≥ win := by have := hwin (o, c) (by simp); simp at this; omega
     have hrest : ∀ r ∈ rest, r.1 < win := fun r hr => hwin r (by simp [hr])
-    -- skipping the head: it is not sendable
-    have skip : ∀ sg', ¬ sendable flow c →
+    -- skipping the head: it is not pk_sendable
+    have skip : ∀ sg', ¬ pk_sendable flow c →
         match (findPick flow win rest (i + 1) sg').1 with
-        | none => ∀ r ∈ (o, c) :: rest, ¬ sendable flow r.2
+        | none => ∀ r ∈ (o, c) :: rest, ¬ pk_sendable flow r.2
         | some (idx, (o', c')) => ∃ pre post, (o, c) :: rest = pre ++ (o', c') :: post ∧ idx = i + pre.length ∧
-            (∀ r ∈ pre, ¬ sendable flow r.2) ∧ sendable flow c' := by
+            (∀ r ∈ pre, ¬ pk_sendable flow r.2) ∧ pk_sendable flow c' := by
       intro sg' hc
       have := ih (i + 1) sg' hrest
       split at this
@@ -207,10 +207,10 @@ theorem findPick_spec (flow win : Nat) (runs : List Run) (i : Nat) (sg : Sig) (h
       · rw [if_pos hf]
         exact ⟨[], rest, rfl, by simp, by simp, Or.inr ⟨rfl, hf⟩⟩
       · rw [if_neg hf]
-        exact skip _ (by simp [sendable]; omega)
+        exact skip _ (by simp [pk_sendable]; omega)
     | lost => exact ⟨[], rest, rfl, by simp, by simp, Or.inl rfl⟩
-    | flighting => exact skip _ (by simp [sendable])
-    | recved => exact skip _ (by simp [sendable])
+    | flighting => exact skip _ (by simp [pk_sendable])
+    | recved => exact skip _ (by simp [pk_sendable])
 
 theorem sameBefore_spec (l : List Run) (col : Colour) (n : Nat) :
     sameBefore l col n ≤ n ∧ ∀ j, sameBefore l col n ≤ j → j < n → ∃ o, l[j]? = some (o, col) := by
@@ -248,27 +248,27 @@ theorem skipSame_spec (col : Colour) (l : List Run) (i : Nat) :
       · exact h3 r hr
     · exact ⟨0, by simp⟩
 
-theorem setAt_ok (l : List Run) (i : Nat) (r : Run) (h : i < l.length) : setAt l i r = pure (l.set i r) := by
+theorem pk_setAt_ok (l : List Run) (i : Nat) (r : Run) (h : i < l.length) : setAt l i r = pure (l.set i r) := by
   simp [setAt, h]
 
-theorem insertAt_ok (l : List Run) (i : Nat) (r : Run) (h : i ≤ l.length) :
+theorem pk_insertAt_ok (l : List Run) (i : Nat) (r : Run) (h : i ≤ l.length) :
     insertAt l i r = pure (l.take i ++ r :: l.drop i) := by
   simp [insertAt, h]
 
-theorem drain_ok (l : List Run) (a b : Nat) (h1 : a ≤ b) (h2 : b ≤ l.length) :
+theorem pk_drain_ok (l : List Run) (a b : Nat) (h1 : a ≤ b) (h2 : b ≤ l.length) :
     drain l a b = pure (l.take a ++ l.drop b) := by
   simp [drain, h1, h2]
 
 /-! ### list surgery -/
 
-theorem L_set (l : List Run) (i : Nat) (a : Run) (h : i < l.length) : l.set i a = l.take i ++ a :: l.drop (i+1) := by
+theorem pk_L_set (l : List Run) (i : Nat) (a : Run) (h : i < l.length) : l.set i a = l.take i ++ a :: l.drop (i+1) := by
   rw [List.set_eq_take_append_cons_drop]; simp [h]
 
-theorem L1 (l : List Run) (i index : Nat) (a : Run) (h1 : i < index) (h2 : index < l.length) :
+theorem pk_L1 (l : List Run) (i index : Nat) (a : Run) (h1 : i < index) (h2 : index < l.length) :
     (if i + 1 < index then ((l.set (i+1) a).take (i + 1 + 1) ++ (l.set (i+1) a).drop (index + 1)) else l.set (i+1) a)
       = l.take (i+1) ++ a :: l.drop (index + 1) := by
   split
-  · rw [L_set _ _ _ (by omega)]
+  · rw [pk_L_set _ _ _ (by omega)]
     have hA : (l.take (i+1) ++ [a]).length = i + 1 + 1 := by simp; omega
     have e1 : l.take (i+1) ++ a :: l.drop (i+1+1) = (l.take (i+1) ++ [a]) ++ l.drop (i+1+1) := by simp
     rw [e1, List.take_left' hA]
@@ -277,9 +277,9 @@ theorem L1 (l : List Run) (i index : Nat) (a : Run) (h1 : i < index) (h2 : index
     simp
   · have : i + 1 = index := by omega
     subst this
-    rw [L_set _ _ _ (by omega)]
+    rw [pk_L_set _ _ _ (by omega)]
 
-theorem L2 (l : List Run) (i index e : Nat) (h1 : i ≤ index) (h2 : index < e) (h3 : e ≤ l.length) :
+theorem pk_L2 (l : List Run) (i index e : Nat) (h1 : i ≤ index) (h2 : index < e) (h3 : e ≤ l.length) :
     (if i < index then ((l.take (index+1) ++ l.drop e).take (i + 1) ++ (l.take (index+1) ++ l.drop e).drop (index + 1))
       else l.take (index+1) ++ l.drop e) = l.take (i+1) ++ l.drop e := by
   split
@@ -289,7 +289,7 @@ theorem L2 (l : List Run) (i index e : Nat) (h1 : i ≤ index) (h2 : index < e) 
   · have : i = index := by omega
     subst this; rfl
 
-theorem split_at (R : List Run) (i e : Nat) (hi : i < e) (he : e ≤ R.length) :
+theorem pk_split_at (R : List Run) (i e : Nat) (hi : i < e) (he : e ≤ R.length) :
     ∃ A g F Z, R = A ++ g :: (F ++ Z) ∧ R.take (i+1) ++ R.drop e = A ++ g :: Z ∧
       (∀ r ∈ g :: F, ∃ j, i ≤ j ∧ j < e ∧ R[j]? = some r) ∧ A.length = i := by
   have hi' : i < R.length := by omega
@@ -310,11 +310,11 @@ theorem split_at (R : List Run) (i e : Nat) (hi : i < e) (he : e ≤ R.length) :
   · simp; omega
 
 /-- dropping runs `(i, e)` that all have the colour of run `i` does not change the abstraction -/
-theorem colourAt_take_drop (R : List Run) (i e : Nat) (c : Colour) (hi : i < e) (he : e ≤ R.length)
+theorem pk_colourAt_take_drop (R : List Run) (i e : Nat) (c : Colour) (hi : i < e) (he : e ≤ R.length)
     (hs : Sorted R) (hc : ∀ j, i ≤ j → j < e → ∃ o, R[j]? = some (o, c)) :
     (∀ p x, colourAt (R.take (i + 1) ++ R.drop e) p x = colourAt R p x) ∧ Sorted (R.take (i + 1) ++ R.drop e) ∧
       ∀ r ∈ R.take (i + 1) ++ R.drop e, r ∈ R := by
-  obtain ⟨A, g, F, Z, h1, h2, h3, _⟩ := split_at R i e hi he
+  obtain ⟨A, g, F, Z, h1, h2, h3, _⟩ := pk_split_at R i e hi he
   have hcol : ∀ r ∈ g :: F, r.2 = c := by
     intro r hr
     obtain ⟨j, hj1, hj2, hj3⟩ := h3 r hr
@@ -326,7 +326,7 @@ theorem colourAt_take_drop (R : List Run) (i e : Nat) (c : Colour) (hi : i < e) 
   refine ⟨?_, ?_, ?_⟩
   · intro p x
     rw [h1] at hs ⊢
-    apply colourAt_drop_same _ _ _ _ _ _ hs
+    apply pk_colourAt_drop_same _ _ _ _ _ _ hs
     intro r hr
     rw [hcol r (by simp [hr]), hcol g (by simp)]
   · rw [h1] at hs
@@ -341,7 +341,7 @@ theorem colourAt_take_drop (R : List Run) (i e : Nat) (c : Colour) (hi : i < e) 
     · exact Or.inr (Or.inl h)
     · exact Or.inr (Or.inr (Or.inr h))
 
-theorem Sorted.recolour {pre post : List Run} {o : Nat} {c c' : Colour} (h : Sorted (pre ++ (o, c) :: post)) :
+theorem Sorted.pk_recolour {pre post : List Run} {o : Nat} {c c' : Colour} (h : Sorted (pre ++ (o, c) :: post)) :
     Sorted (pre ++ (o, c') :: post) := by
   unfold Sorted at *
   rw [List.pairwise_append, List.pairwise_cons] at *
@@ -355,28 +355,28 @@ theorem Sorted.recolour {pre post : List Run} {o : Nat} {c c' : Colour} (h : Sor
 
 /-! ### the specification side -/
 
-theorem cand_iff (s : SendSpec) (flow x : Nat) : s.cand flow x = true ↔ sendable flow (s.colour x) := by
-  unfold SendSpec.cand sendable
+theorem pk_cand_iff (s : SendSpec) (flow x : Nat) : s.cand flow x = true ↔ pk_sendable flow (s.colour x) := by
+  unfold SendSpec.cand pk_sendable
   cases s.colour x <;> simp <;> omega
 
-theorem win_eq (m : BufMap) (s : SendSpec) (hsize : s.size = m.size) (hwin : m.size ≤ s.maxData) :
+theorem pk_win_eq (m : BufMap) (s : SendSpec) (hsize : s.size = m.size) (hwin : m.size ≤ s.maxData) :
     s.win = m.size := by
   unfold SendSpec.win; omega
 
 theorem firstCand_none (m : BufMap) (s : SendSpec) (flow : Nat) (hsize : s.size = m.size)
     (hcol : ∀ x, s.colour x = m.abs x) (hwin : m.size ≤ s.maxData)
-    (hno : ∀ r ∈ m.runs, ¬ sendable flow r.2) : s.firstCand flow = s.win := by
+    (hno : ∀ r ∈ m.runs, ¬ pk_sendable flow r.2) : s.firstCand flow = s.win := by
   unfold SendSpec.firstCand
   apply least_eq' _ _ _ (Nat.le_refl _)
   · intro x hx
-    have hx' : x < m.size := by rw [win_eq m s hsize hwin] at hx; exact hx
+    have hx' : x < m.size := by rw [pk_win_eq m s hsize hwin] at hx; exact hx
     cases h : s.cand flow x with
     | false => rfl
     | true =>
       exfalso
-      rw [cand_iff, hcol, abs_of_lt _ _ hx'] at h
-      rcases colourAt_mem m.runs .recved x with h1 | ⟨r, hr, h1⟩
-      · rw [h1] at h; simp [sendable] at h
+      rw [pk_cand_iff, hcol, abs_of_lt _ _ hx'] at h
+      rcases pk_colourAt_mem m.runs .recved x with h1 | ⟨r, hr, h1⟩
+      · rw [h1] at h; simp [pk_sendable] at h
       · rw [← h1] at h; exact hno r hr h
   · intro h; omega
 
@@ -384,10 +384,10 @@ theorem firstCand_some (m : BufMap) (s : SendSpec) (flow : Nat) (pre post : List
     (hwf : WF m) (hsize : s.size = m.size)
     (hcol : ∀ x, s.colour x = m.abs x) (hwin : m.size ≤ s.maxData)
     (hruns : m.runs = pre ++ (o, c) :: post)
-    (hpre : ∀ r ∈ pre, ¬ sendable flow r.2) (hc : sendable flow c) :
+    (hpre : ∀ r ∈ pre, ¬ pk_sendable flow r.2) (hc : pk_sendable flow c) :
     s.firstCand flow = o ∧ o < s.win := by
   have ho : o < m.size := hwf.lt_size (o, c) (by simp [hruns])
-  have hw := win_eq m s hsize hwin
+  have hw := pk_win_eq m s hsize hwin
   have hsorted : Sorted (pre ++ (o, c) :: post) := hruns ▸ hwf.sorted
   refine ⟨least_eq' _ _ _ (by omega) ?_ ?_, by omega⟩
   · intro x hx
@@ -395,15 +395,15 @@ theorem firstCand_some (m : BufMap) (s : SendSpec) (flow : Nat) (pre post : List
     | false => rfl
     | true =>
       exfalso
-      rw [cand_iff, hcol, abs_of_lt _ _ (by omega), hruns,
+      rw [pk_cand_iff, hcol, abs_of_lt _ _ (by omega), hruns,
         colourAt_append_gt pre _ _ x (by simp; omega)] at h
-      rcases colourAt_mem pre .recved x with h1 | ⟨r, hr, h1⟩
-      · rw [h1] at h; simp [sendable] at h
+      rcases pk_colourAt_mem pre .recved x with h1 | ⟨r, hr, h1⟩
+      · rw [h1] at h; simp [pk_sendable] at h
       · rw [← h1] at h; exact hpre r hr h
   · intro _
-    rw [cand_iff, hcol, abs_of_lt _ _ ho, hruns, colourAt_run pre post o c .recved o
-      (fun r hr => Nat.le_of_lt (Sorted.lt hsorted r hr (o, c) (by simp))) (Nat.le_refl _)
-      (fun r hr => Sorted.head_lt (Sorted.append_right hsorted) r (by
+    rw [pk_cand_iff, hcol, abs_of_lt _ _ ho, hruns, pk_colourAt_run pre post o c .recved o
+      (fun r hr => Nat.le_of_lt (Sorted.pk_lt hsorted r hr (o, c) (by simp))) (Nat.le_refl _)
+      (fun r hr => Sorted.pk_head_lt (Sorted.pk_append_right hsorted) r (by
         cases post with
         | nil => simp at hr
         | cons r' post => simp at hr; subst hr; simp))]
@@ -415,7 +415,7 @@ theorem pick_some (m : BufMap) (pred : Nat → Option Nat) (flow win : Nat) (pre
     (hruns : m.runs = pre ++ (start, color) :: post)
     (hfind : findPick flow win m.runs 0 {} = (some (pre.length, (start, color)), sg))
     (hpred : pred start = some available) (hav : 0 < available) (hav63 : available < 2 ^ 63)
-    (hsend : sendable flow color) :
+    (hsend : pk_sendable flow color) :
     ∃ runs' b, pick m pred flow win = .ok ({ m with runs := runs' }, .range start b (color == .pending)) ∧
       Sorted runs' ∧ (∀ r ∈ runs', r.1 < m.size) ∧ start < b ∧ b ≤ m.size ∧
       (∀ r, post.head? = some r → b ≤ r.1) ∧
@@ -424,8 +424,8 @@ theorem pick_some (m : BufMap) (pred : Nat → Option Nat) (flow win : Nat) (pre
         if start ≤ x ∧ x < b then .flighting else colourAt m.runs .recved x := by
   have hstart : start < m.size := hwf.lt_size (start, color) (by simp [hruns])
   have hsorted : Sorted (pre ++ (start, color) :: post) := hruns ▸ hwf.sorted
-  have hpre_lt : ∀ r ∈ pre, r.1 < start := fun r hr => Sorted.lt hsorted r hr (start, color) (by simp)
-  have hpost_gt : ∀ r ∈ post, start < r.1 := Sorted.head_lt (Sorted.append_right hsorted)
+  have hpre_lt : ∀ r ∈ pre, r.1 < start := fun r hr => Sorted.pk_lt hsorted r hr (start, color) (by simp)
+  have hpost_gt : ∀ r ∈ post, start < r.1 := Sorted.pk_head_lt (Sorted.pk_append_right hsorted)
   have hlen : pre.length < m.runs.length := by simp [hruns]
   have hset : m.runs.set pre.length (start, .flighting) = pre ++ (start, .flighting) :: post := by
     simp [hruns]
@@ -434,7 +434,7 @@ theorem pick_some (m : BufMap) (pred : Nat → Option Nat) (flow win : Nat) (pre
   dsimp only
   rw [hpred]
   dsimp only
-  rw [setAt_ok _ _ _ hlen, hset]
+  rw [pk_setAt_ok _ _ _ hlen, hset]
   simp only [pure_bind]
   generalize hal : (if color = Colour.lost then available else min available flow) = allowance
   have hal1 : 0 < allowance ∧ allowance ≤ available ∧ (color = .pending → allowance ≤ flow) := by
@@ -470,7 +470,7 @@ theorem pick_some (m : BufMap) (pred : Nat → Option Nat) (flow win : Nat) (pre
     · have : j = pre.length := by omega
       subst this
       exact ⟨start, by simp⟩
-  have hR1s : Sorted (pre ++ (start, Colour.flighting) :: post) := Sorted.recolour hsorted
+  have hR1s : Sorted (pre ++ (start, Colour.flighting) :: post) := Sorted.pk_recolour hsorted
   have hR1lt : ∀ r ∈ pre ++ (start, Colour.flighting) :: post, r.1 < m.size := by
     intro r hr
     simp only [List.mem_append, List.mem_cons] at hr
@@ -494,19 +494,19 @@ theorem pick_some (m : BufMap) (pred : Nat → Option Nat) (flow win : Nat) (pre
       start + allowance, ?_, ?_⟩
     · rw [← hN]
       by_cases hi : i < pre.length
-      · rw [if_pos hi, setAt_ok _ _ _ (by omega)]
+      · rw [if_pos hi, pk_setAt_ok _ _ _ (by omega)]
         simp only [pure_bind]
-        have h1 := L1 (pre ++ (start, .flighting) :: post) i pre.length (start + allowance, color) hi (by omega)
+        have h1 := pk_L1 (pre ++ (start, .flighting) :: post) i pre.length (start + allowance, color) hi (by omega)
         by_cases hi2 : i + 1 < pre.length
         · rw [if_pos hi2] at h1 ⊢
-          rw [drain_ok _ _ _ (by omega) (by simp <;> omega)]
+          rw [pk_drain_ok _ _ _ (by omega) (by simp <;> omega)]
           simp only [pure_bind]
           rw [h1]; rfl
         · rw [if_neg hi2] at h1 ⊢
           rw [h1]; rfl
       · have : i = pre.length := by omega
         subst this
-        rw [if_neg hi, insertAt_ok _ _ _ (by omega)]
+        rw [if_neg hi, pk_insertAt_ok _ _ _ (by omega)]
         simp only [pure_bind]
         rw [if_neg (by omega)]; rfl
     · have hpostE : ∀ r ∈ post, E ≤ r.1 := by
@@ -518,7 +518,7 @@ theorem pick_some (m : BufMap) (pred : Nat → Option Nat) (flow win : Nat) (pre
           simp only [List.mem_cons] at hr
           rcases hr with rfl | hr
           · omega
-          · have := Sorted.head_lt (Sorted.tail (Sorted.append_right hsorted)) r hr
+          · have := Sorted.pk_head_lt (Sorted.pk_tail (Sorted.pk_append_right hsorted)) r hr
             omega
       have hRs : Sorted (pre ++ (start, Colour.flighting) :: (start + allowance, color) :: post) := by
         unfold Sorted at *
@@ -561,7 +561,7 @@ theorem pick_some (m : BufMap) (pred : Nat → Option Nat) (flow win : Nat) (pre
         obtain ⟨o, ho⟩ := hfl j h1 h2
         rw [hR1, List.getElem?_append_left (by omega)] at ho
         exact ⟨o, by rw [hR, List.getElem?_append_left (by omega)]; exact ho⟩
-      obtain ⟨hc1, hc2, hc3⟩ := colourAt_take_drop _ i (pre.length + 1) .flighting (by omega)
+      obtain ⟨hc1, hc2, hc3⟩ := pk_colourAt_take_drop _ i (pre.length + 1) .flighting (by omega)
         (by simp) hRs hRfl
       refine ⟨hc2, fun r hr => hRlt r (hc3 r hr), by omega, by omega, ?_, by omega, ?_, ?_⟩
       · intro r hr
@@ -571,7 +571,7 @@ theorem pick_some (m : BufMap) (pred : Nat → Option Nat) (flow win : Nat) (pre
         have := hal1.2.2 h
         omega
       · intro x _
-        rw [hc1, colourAt_split pre post start (start + allowance) color .flighting .recved x hpre_lt (by omega),
+        rw [hc1, pk_colourAt_split pre post start (start + allowance) color .flighting .recved x hpre_lt (by omega),
           hruns]
   · rw [if_neg hsp]
     obtain ⟨k, hk1, hk2, hk3⟩ := skipSame_spec .flighting post (pre.length + 1)
@@ -584,7 +584,7 @@ theorem pick_some (m : BufMap) (pred : Nat → Option Nat) (flow win : Nat) (pre
       rw [hdrop, hk1]
       dsimp only
       split
-      · exact drain_ok _ _ _ (by omega) (by omega)
+      · exact pk_drain_ok _ _ _ (by omega) (by omega)
       · have : k = 0 := by omega
         subst this
         rw [Nat.add_zero, List.take_append_drop]
@@ -592,11 +592,11 @@ theorem pick_some (m : BufMap) (pred : Nat → Option Nat) (flow win : Nat) (pre
     simp only [pure_bind]
     refine ⟨(pre ++ (start, Colour.flighting) :: post).take (i + 1) ++
       (pre ++ (start, Colour.flighting) :: post).drop (pre.length + 1 + k), E, ?_, ?_⟩
-    · have h2 := L2 (pre ++ (start, Colour.flighting) :: post) i pre.length (pre.length + 1 + k) hi_le
+    · have h2 := pk_L2 (pre ++ (start, Colour.flighting) :: post) i pre.length (pre.length + 1 + k) hi_le
         (by omega) (by omega)
       by_cases hi : i < pre.length
       · rw [if_pos hi] at h2 ⊢
-        rw [drain_ok _ _ _ (by omega) (by simp <;> omega)]
+        rw [pk_drain_ok _ _ _ (by omega) (by simp <;> omega)]
         simp only [pure_bind]
         rw [h2]; rfl
       · rw [if_neg hi] at h2 ⊢
@@ -613,7 +613,7 @@ theorem pick_some (m : BufMap) (pred : Nat → Option Nat) (flow win : Nat) (pre
             exact ⟨j - (pre.length + 1), by omega, rfl⟩
           refine ⟨post[j - (pre.length + 1)].1, ?_⟩
           rw [List.getElem?_eq_getElem hj', ← hk3 _ hmem]
-      obtain ⟨hc1, hc2, hc3⟩ := colourAt_take_drop _ i (pre.length + 1 + k) .flighting (by omega)
+      obtain ⟨hc1, hc2, hc3⟩ := pk_colourAt_take_drop _ i (pre.length + 1 + k) .flighting (by omega)
         (by omega) hR1s hfl2
       refine ⟨hc2, fun r hr => hR1lt r (hc3 r hr), hE1, hE2, ?_, by omega, ?_, ?_⟩
       · intro r hr
@@ -626,12 +626,12 @@ theorem pick_some (m : BufMap) (pred : Nat → Option Nat) (flow win : Nat) (pre
         rw [hc1]
         split
         · next h =>
-          exact colourAt_run pre post start .flighting .recved x
+          exact pk_colourAt_run pre post start .flighting .recved x
             (fun r hr => by have := hpre_lt r hr; omega) h.1
             (fun r hr => by rw [← hE3 r hr]; exact h.2)
         · next h =>
           rw [hruns]
-          apply colourAt_recolour
+          apply pk_colourAt_recolour
           by_cases hx1 : x < start
           · exact Or.inl hx1
           · right
@@ -648,7 +648,7 @@ theorem pick_refines (m : BufMap) (s : SendSpec) (pred : Nat → Option Nat) (fl
     (hwin : m.size ≤ s.maxData) (h62 : m.size < 2 ^ 62) (hp : PredDom pred) :
     ∃ m' r, pick m pred flow s.maxData = .ok (m', r) ∧ WF m' ∧ m'.size = m.size ∧
       pickOk s pred flow (obsOf r) ∧ ∀ x, m'.abs x = (s.picked (obsOf r)).colour x := by
-  have hw := win_eq m s hsize hwin
+  have hw := pk_win_eq m s hsize hwin
   have hlt : ∀ r ∈ m.runs, r.1 < s.maxData := fun r hr => by have := hwf.lt_size r hr; omega
   have hspec := findPick_spec flow s.maxData m.runs 0 {} hlt
   cases hfp : findPick flow s.maxData m.runs 0 {} with
@@ -680,8 +680,8 @@ theorem pick_refines (m : BufMap) (s : SendSpec) (pred : Nat → Option Nat) (fl
       have hcover : ∀ x, start ≤ x → x < b → s.colour x = color := by
         intro x h1 h2
         rw [hcol, abs_of_lt _ _ (by omega), hruns]
-        exact colourAt_run pre post start color .recved x
-          (fun r hr => by have := Sorted.lt hsorted r hr (start, color) (by simp); simp at this; omega) h1
+        exact pk_colourAt_run pre post start color .recved x
+          (fun r hr => by have := Sorted.pk_lt hsorted r hr (start, color) (by simp); simp at this; omega) h1
           (fun r hr => by have := hbpost r hr; omega)
       have hcs : s.colour start = color := hcover start (Nat.le_refl _) hsb
       refine ⟨{ m with runs := runs' }, .range start b (color == .pending), hpick, ⟨hs', hlt'⟩, rfl, ?_, ?_⟩
